@@ -64,7 +64,8 @@ SESSION = Policy([("default", True, {"send_destination": "*", "eavesdrop": "true
 
 LIMIT_KEYS = {"names": "max_names_per_connection", "rules": "max_match_rules_per_connection",
               "completed": "max_completed_connections", "peruser": "max_connections_per_user",
-              "replies": "max_replies_per_connection", "maxmsg": "max_message_size", "reply_timeout": "reply_timeout"}
+              "replies": "max_replies_per_connection", "maxmsg": "max_message_size", "reply_timeout": "reply_timeout",
+              "maxfds": "max_message_unix_fds", "pending_fd_timeout": "pending_fd_timeout"}
 
 
 def gids_of(uid):
@@ -87,11 +88,34 @@ class ImplRun:
         self.unique = {}       # cid -> unique name (learnt from the Hello reply)
         self.bserial = BARRIER0
         self.monitors = set()
+        self.tokens = {}       # (st_dev, st_ino) -> token of a descriptor sent by the harness
+        self.fdcounts = []     # after each op: descriptors open in the daemon beyond its baseline and its client sockets
+        self.base_fds = self._stable_base()
         self.dirty = set()     # cids that wrote raw bytes: no barrier is sent on them any more
         self.pre = {}          # hostile sockets that never authenticate
         self.stall = None
         self.max_latency = 0.0
         self.reply_timeout = (limits or {}).get("reply_timeout")
+        self.pending_fd_timeout = (limits or {}).get("pending_fd_timeout")
+
+    def _stable_base(self):
+        """descriptors the daemon holds with no client connected, after one client has come and gone (whatever it
+        opens lazily on first use is open by then)"""
+        try:
+            cl = bus.Client(self.d)          # authenticates, never says Hello: no unique name is used up
+            time.sleep(0.03)
+            cl.close()
+        except (OSError, InfraError):
+            pass
+        last, same, t0 = None, 0, time.time()
+        while time.time() - t0 < 3:
+            n = self.d.nfds()
+            same = same + 1 if n == last else 0
+            last = n
+            if same >= 3:
+                break
+            time.sleep(0.02)
+        return last
 
     def stop(self):
         for c in self.c.values():
@@ -223,6 +247,25 @@ class ImplRun:
             actor = op[1]
             if actor in self.c and actor not in self.closed:
                 self.c[actor].send_raw(op[2], op[3] if len(op) > 3 else ())
+        elif op[0] == "fdsend":
+            actor = op[1]
+            if actor in self.c and actor not in self.closed:
+                fds = []
+                for tok in op[3]:
+                    path = os.path.join(self.d.dir, "tok-%d" % tok)
+                    fd = os.open(path, os.O_RDWR | os.O_CREAT, 0o600)
+                    st = os.fstat(fd); self.tokens[(st.st_dev, st.st_ino)] = tok
+                    fds.append(fd)
+                data = op[2]
+                cut = op[4] if len(op) > 4 and op[4] else 0
+                if cut and 0 < cut < len(data):
+                    self.c[actor].send_raw(data[:cut], fds)
+                    time.sleep(0.01)
+                    self.c[actor].send_raw(data[cut:])
+                else:
+                    self.c[actor].send_raw(data, fds)
+                for fd in fds:
+                    os.close(fd)
         elif op[0] == "raw":
             if op[1] in self.c and op[1] not in self.closed:
                 self.c[op[1]].send_raw(op[2])
@@ -248,6 +291,8 @@ class ImplRun:
                 self.pre.pop(k, None)
         elif op[0] == "sleep":
             time.sleep((self.reply_timeout or 0) * 1.3 / 1000.0 + 0.05)
+        elif op[0] == "fdsleep":
+            time.sleep((self.pending_fd_timeout or 0) * 1.4 / 1000.0 + 0.05)
         elif op[0] == "close":
             if op[1] in self.c and op[1] not in self.closed:
                 self.c[op[1]].close()
@@ -294,6 +339,29 @@ class ImplRun:
         self._ctl_sync()             # ... and so have the daemon's deferred follow-ups
         for cid in sorted(self.c):
             settle(cid)
+        # descriptors that came with the messages, as tokens, in arrival order
+        for cid, raws in got.items():
+            cl = self.c.get(cid)
+            if cl is None or not cl.fds:
+                continue
+            toks = []
+            for fd in cl.fds:
+                try:
+                    st = os.fstat(fd); toks.append(self.tokens.get((st.st_dev, st.st_ino), -1)); os.close(fd)
+                except OSError:
+                    toks.append(-2)
+            cl.fds = []
+            for k, raw in enumerate(raws):
+                try:
+                    n = wiregen.parse_message(raw).get(9) or 0
+                except Exception:
+                    n = 0
+                if n:
+                    r = Raw(raw); r.toks = tuple(toks[:n]); toks = toks[n:]; raws[k] = r
+            if toks:
+                raws.append(Raw(b"")); raws[-1].toks = tuple(toks)      # descriptors that came with no message announcing them
+        live = len([c for c in self.c if c not in self.closed])
+        self.fdcounts.append(self.d.nfds() - self.base_fds - live)
         # learn unique names from Hello replies
         for cid, raws in got.items():
             if cid not in self.unique:
@@ -305,6 +373,11 @@ class ImplRun:
         if not self.d.alive():
             raise DaemonDied(self.d.stderr())
         return got, newly
+
+
+class Raw(bytes):
+    """a received message with the tokens of the descriptors that came with it"""
+    toks = ()
 
 
 class DaemonDied(Exception):
@@ -353,8 +426,12 @@ def dump_raw(raws):
     """raw wire messages -> canonical lines (printed by the model's own decoder)"""
     if not raws:
         return []
-    outs = script.run_model("".join("wire demarshalx " + r.hex() + "\n" for r in raws))[0]
-    return [sort_string_array(canon(o.split(" ; ")[0])) for o in outs]
+    outs = script.run_model("".join("wire demarshalx " + (r.hex() or "-") + "\n" for r in raws))[0]
+    lines = [sort_string_array(canon(o.split(" ; ")[0])) for o in outs]
+    for i, r in enumerate(raws):
+        if getattr(r, "toks", ()):
+            lines[i] = (lines[i] if len(r) else "STRAY") + " fdtok=" + ",".join(map(str, r.toks))
+    return lines
 
 
 def parse_model_outs(ans):
@@ -374,10 +451,15 @@ def parse_model_outs(ans):
     return per, closed, opaque
 
 
-def op_lines(ops):
+def op_lines(ops, fdmode=False):
     lines = []
     dirty = set()
     for op in ops:
+        if op[0] == "fdsleep":
+            lines.append("bus fdtimeout"); continue
+        if fdmode and op[0] in ("send", "raw", "fdsend"):
+            lines.append("bus fdwrite %d %s %s" % (op[1], op[2].hex() or "-", ",".join(map(str, op[3])) if op[0] == "fdsend" and op[3] else "-"))
+            continue
         if op[0] == "raw" and not (len(op) > 3 and op[3] and op[1] not in dirty):
             dirty.add(op[1])
         if op[0] == "send" and op[1] in dirty:
@@ -393,6 +475,8 @@ def op_lines(ops):
             lines.append("bus close %d" % op[1])
         elif op[0] == "sleep":
             lines.append("bus timeout")
+        elif op[0] == "fdsleep":
+            lines.append("bus fdtimeout")
         elif op[0] == "raw":
             lines.append("bus raw %d %s" % (op[1], op[2].hex() or "-"))
         elif op[0] == "preauth":
@@ -400,15 +484,21 @@ def op_lines(ops):
     return lines
 
 
-def model_run(ops, policy=SESSION, limits=None):
+def model_run(ops, policy=SESSION, limits=None, fdmode=False):
     limits = dict(limits or {})
     limits.setdefault("maxmsg", 32 * 1024 * 1024)      # bus/config-parser.c: the bus's own default for max_message_size
-    lines = ["bus reset " + " ".join("%s=%d" % kv for kv in (limits or {}).items() if kv[0] != "reply_timeout")] + policy.to_model() + op_lines(ops)
+    lines = ["bus reset " + " ".join("%s=%d" % kv for kv in (limits or {}).items() if kv[0] not in ("reply_timeout", "pending_fd_timeout"))] + policy.to_model() + \
+        ([x for l in op_lines(ops, True) for x in (l, "bus fdstate")] if fdmode else op_lines(ops))
     outs = script.run_model("\n".join(lines) + "\n")[0]
     pre = 1 + len(policy.rules)
     for o in outs[:pre]:
         if o not in ("ok",):
             raise InfraError("model refused setup line: %r" % o)
+    if fdmode:
+        body = outs[pre:]
+        res = [parse_model_outs(o) for o in body[0::2]]
+        LAST_RUN["model_open"] = [int(re.search(r"open=(\d+)", o).group(1)) for o in body[1::2]]
+        return res
     return [parse_model_outs(o) for o in outs[pre:]]
 
 
@@ -445,6 +535,7 @@ def run_impl(ops, policy=SESSION, limits=None, extra=""):
                 died = run.d.stderr()[-3000:]
                 break
         LAST_RUN["max_latency"] = run.max_latency
+        LAST_RUN["fdcounts"] = list(run.fdcounts)
         LAST_RUN["dirty"] = set(run.dirty)
         return steps, died, dict(run.unique)
     finally:
@@ -464,7 +555,8 @@ def dump_steps(steps):
 
 def compare(ops, policy=SESSION, limits=None, extra="", impl=None):
     """run both sides; returns None when they agree, else a dict describing the first difference"""
-    model = model_run(ops, policy, limits)
+    fdmode = any(op[0] == "fdsend" for op in ops)
+    model = model_run(ops, policy, limits, fdmode)
     steps, died, _ = impl if impl is not None else run_impl(ops, policy, limits, extra)
     isteps = dump_steps(steps)
     dirty = set()
@@ -481,7 +573,7 @@ def compare(ops, policy=SESSION, limits=None, extra="", impl=None):
                 # the model keeps ordinary deliveries and monitor copies in two lists; in the one step in
                 # which a connection turns into a monitor it receives both kinds, interleaved
                 a, b = sorted(a), sorted(b)
-            if op[0] == "sleep":
+            if op[0] in ("sleep", "fdsleep"):
                 # slots time out one by one as the clock passes their deadlines; which of two deadlines
                 # a millisecond apart is noticed first is not part of the contract
                 a, b = sorted(a), sorted(b)
@@ -489,6 +581,8 @@ def compare(ops, policy=SESSION, limits=None, extra="", impl=None):
                 return {"step": i, "op": show_op(op), "kind": "delivery", "conn": cid, "impl": a, "model": b}
         if newly != mclosed:
             return {"step": i, "op": show_op(op), "kind": "closed", "impl": sorted(newly), "model": sorted(mclosed)}
+        if fdmode and i < len(LAST_RUN.get("fdcounts", [])) and LAST_RUN["fdcounts"][i] != LAST_RUN["model_open"][i]:
+            return {"step": i, "op": show_op(op), "kind": "open-descriptors", "impl": LAST_RUN["fdcounts"][i], "model": LAST_RUN["model_open"][i]}
     if died is not None:
         return {"step": len(steps), "op": show_op(ops[len(steps)]), "kind": "daemon-died", "stderr": died}
     return None
@@ -510,6 +604,8 @@ def impl_trace(ops, policy=SESSION, limits=None, extra=""):
 def show_op(op):
     if op[0] == "send":
         return "send %d %s" % (op[1], op[2].hex())
+    if op[0] == "fdsend":
+        return "fdsend %d %s %s %d" % (op[1], op[2].hex() or "-", ",".join(map(str, op[3])) or "-", op[4] if len(op) > 4 else 0)
     if op[0] == "raw":
         return "raw %d %s%s" % (op[1], op[2].hex() or "-", " whole" if len(op) > 3 and op[3] else "")
     if op[0] == "preauth":
@@ -525,6 +621,10 @@ def parse_op(s):
         return ("connect", int(t[1]), int(t[2]), t[3] in ("True", "1"))
     if t[0] == "sleep":
         return ("sleep",)
+    if t[0] == "fdsleep":
+        return ("fdsleep",)
+    if t[0] == "fdsend":
+        return ("fdsend", int(t[1]), b"" if t[2] == "-" else bytes.fromhex(t[2]), [] if t[3] == "-" else [int(x) for x in t[3].split(",")], int(t[4]))
     if t[0] == "raw":
         return ("raw", int(t[1]), b"" if t[2] == "-" else bytes.fromhex(t[2]), len(t) > 3 and t[3] == "whole")
     if t[0] == "preauth":
